@@ -1,22 +1,22 @@
 CONSTANTS
-  Nbrs <- MCNbrs
-  Selfs <- MCSelfs
-  Prefixes <- MCPrefixes
-  Ifaces <- MCIfaces
-  IfOf <- MCIfOf
-  T = 3
-  G = 2
-  R = 2
+  Nbrs <- OddNbrs
+  Selfs <- OneSelf
+  Prefixes <- OddPrefixes
+  Ifaces <- Ifs
+  IfOf <- IfAll
+  T = 2
+  G = 1
+  R = 1
   Strict = FALSE
-  Msgs <- MCMsgs
-  Dts <- MCDts
-  StaticCfg <- MCStaticCfg
-  LocalCfg <- MCLocalCfg
-  ConnCfg <- MCConnCfg
+  Msgs <- OddMsgs
+  Dts <- Dt1
+  StaticCfg <- NoCfg
+  LocalCfg <- NoCfg
+  ConnCfg <- NoCfg
   LocalSrc = "s1"
   IfNone = FALSE
-  Mtu = 124
-  QueryMtus <- MCQueryMtus
+  Mtu = 104
+  Queries <- OddQueries
   D = 0
 INIT Init
 NEXT Next
